@@ -97,43 +97,52 @@ Proof.
     + destruct (IHr _ _ _ _ H1 H2 P) as [-> ->]. auto.
 Qed.
 
-Lemma tree_codes_prefix_free_list t : prefix_free (map snd (codes_of_tree t)).
+Lemma nth_error_map_some {A B} (f : A -> B) l i y :
+  nth_error (map f l) i = Some y -> exists x, nth_error l i = Some x /\ y = f x.
 Proof.
-  intros i j ci cj Hi Hj P.
-  rewrite nth_error_map in Hi, Hj.
-  destruct (nth_error (codes_of_tree t) i) as [[si ci']|] eqn:Ei; [|discriminate].
-  destruct (nth_error (codes_of_tree t) j) as [[sj cj']|] eqn:Ej; [|discriminate].
-  cbn in Hi, Hj. injection Hi as ->. injection Hj as ->.
-  (* positions: induction on the tree, again *)
-  revert i j si ci sj cj Ei Ej P. induction t as [s|l IHl r IHr]; intros i j si ci sj cj Ei Ej P.
+  rewrite nth_error_map. destruct (nth_error l i) as [x|]; cbn; [|discriminate].
+  intros H. injection H as <-. eauto.
+Qed.
+
+Lemma tree_codes_prefix_free_pos t i j si ci sj cj :
+  nth_error (codes_of_tree t) i = Some (si, ci) -> nth_error (codes_of_tree t) j = Some (sj, cj) ->
+  is_prefix ci cj -> i = j.
+Proof.
+  revert i j si ci sj cj. induction t as [s|l IHl r IHr]; intros i j si ci sj cj Ei Ej P.
   - destruct i as [|i]; [|destruct i; discriminate]. destruct j as [|j]; [reflexivity|destruct j; discriminate].
   - cbn [codes_of_tree] in Ei, Ej.
     set (L := map (fun p : N * code => (fst p, false :: snd p)) (codes_of_tree l)) in *.
     assert (HL : length L = length (codes_of_tree l)) by (unfold L; apply map_length).
     destruct (Nat.lt_ge_cases i (length L)) as [Hi|Hi], (Nat.lt_ge_cases j (length L)) as [Hj|Hj].
-    + rewrite nth_error_app1 in Ei, Ej by assumption. unfold L in Ei, Ej. rewrite nth_error_map in Ei, Ej.
-      destruct (nth_error (codes_of_tree l) i) as [[a ca]|] eqn:Ea; [|cbn in Ei, Ej; discriminate].
-      destruct (nth_error (codes_of_tree l) j) as [[b cb]|] eqn:Eb; [|cbn in Ei, Ej; discriminate].
-      cbn in Ei, Ej. injection Ei as <- <-. injection Ej as <- <-.
+    + rewrite nth_error_app1 in Ei, Ej by assumption. unfold L in Ei, Ej.
+      apply nth_error_map_some in Ei. apply nth_error_map_some in Ej.
+      destruct Ei as [[a ca] [Ea Ei]], Ej as [[b cb] [Eb Ej]]. cbn in Ei, Ej.
+      injection Ei as -> ->. injection Ej as -> ->.
       apply is_prefix_cons in P. destruct P as [_ P]. eapply IHl; eauto.
     + rewrite nth_error_app1 in Ei by assumption. rewrite nth_error_app2 in Ej by assumption.
-      unfold L in Ei. rewrite nth_error_map in Ei, Ej.
-      destruct (nth_error (codes_of_tree l) i) as [[a ca]|]; [|cbn in Ei, Ej; discriminate].
-      destruct (nth_error (codes_of_tree r) (j - length L)) as [[b cb]|]; [|cbn in Ei, Ej; discriminate].
-      cbn in Ei, Ej. injection Ei as <- <-. injection Ej as <- <-.
+      unfold L in Ei. apply nth_error_map_some in Ei. apply nth_error_map_some in Ej.
+      destruct Ei as [[a ca] [Ea Ei]], Ej as [[b cb] [Eb Ej]]. cbn in Ei, Ej.
+      injection Ei as -> ->. injection Ej as -> ->.
       apply is_prefix_cons in P. destruct P as [E _]. discriminate.
     + rewrite nth_error_app2 in Ei by assumption. rewrite nth_error_app1 in Ej by assumption.
-      unfold L in Ej. rewrite nth_error_map in Ei, Ej.
-      destruct (nth_error (codes_of_tree r) (i - length L)) as [[a ca]|]; [|cbn in Ei, Ej; discriminate].
-      destruct (nth_error (codes_of_tree l) j) as [[b cb]|]; [|cbn in Ei, Ej; discriminate].
-      cbn in Ei, Ej. injection Ei as <- <-. injection Ej as <- <-.
+      unfold L in Ej. apply nth_error_map_some in Ei. apply nth_error_map_some in Ej.
+      destruct Ei as [[a ca] [Ea Ei]], Ej as [[b cb] [Eb Ej]]. cbn in Ei, Ej.
+      injection Ei as -> ->. injection Ej as -> ->.
       apply is_prefix_cons in P. destruct P as [E _]. discriminate.
-    + rewrite nth_error_app2 in Ei, Ej by assumption. rewrite nth_error_map in Ei, Ej.
-      destruct (nth_error (codes_of_tree r) (i - length L)) as [[a ca]|] eqn:Ea; [|cbn in Ei, Ej; discriminate].
-      destruct (nth_error (codes_of_tree r) (j - length L)) as [[b cb]|] eqn:Eb; [|cbn in Ei, Ej; discriminate].
-      cbn in Ei, Ej. injection Ei as <- <-. injection Ej as <- <-.
+    + rewrite nth_error_app2 in Ei, Ej by assumption.
+      apply nth_error_map_some in Ei. apply nth_error_map_some in Ej.
+      destruct Ei as [[a ca] [Ea Ei]], Ej as [[b cb] [Eb Ej]]. cbn in Ei, Ej.
+      injection Ei as -> ->. injection Ej as -> ->.
       apply is_prefix_cons in P. destruct P as [_ P].
       assert (i - length L = j - length L)%nat by (eapply IHr; eauto). lia.
+Qed.
+
+Lemma tree_codes_prefix_free_list t : prefix_free (map snd (codes_of_tree t)).
+Proof.
+  intros i j ci cj Hi Hj P.
+  apply nth_error_map_some in Hi. apply nth_error_map_some in Hj.
+  destruct Hi as [[si ci'] [Ei ->]], Hj as [[sj cj'] [Ej ->]].
+  eapply tree_codes_prefix_free_pos; eauto.
 Qed.
 
 (* A2: Kraft equality *)
@@ -152,8 +161,8 @@ Proof.
   induction t as [s|l IHl r IHr]; [repeat constructor|].
   cbn [codes_of_tree height]. rewrite map_app, !map_map. cbn [snd].
   apply Forall_app; split; apply Forall_map.
-  - rewrite Forall_map in IHl. eapply Forall_impl; [|exact IHl]. cbn. intros; lia.
-  - rewrite Forall_map in IHr. eapply Forall_impl; [|exact IHr]. cbn. intros; lia.
+  - rewrite Forall_map in IHl. eapply Forall_impl; [|exact IHl]. intros a Ha; cbn [length] in *; lia.
+  - rewrite Forall_map in IHr. eapply Forall_impl; [|exact IHr]. intros a Ha; cbn [length] in *; lia.
 Qed.
 
 Theorem tree_code_complete t D :
@@ -238,4 +247,975 @@ Proof.
     exists (c ++ bs). cbn [encode_with length tree_decode]. rewrite Hc, E. split; [reflexivity|].
     rewrite <- app_assoc, (tree_walk_code t s c) by (apply lookup_code_in; exact Hc).
     rewrite D. reflexivity.
+Qed.
+
+(* ------------------------------------------------------------------ B. codeword tables *)
+
+Lemma bits_of_length n v : length (bits_of n v) = n.
+Proof. induction n; cbn [bits_of length]; auto. Qed.
+
+Lemma cw_bits_length c : length (cw_bits c) = N.to_nat (snd c).
+Proof. apply bits_of_length. Qed.
+
+(* --- prefix-freeness *)
+Lemma pf_aux_lt l : pf_aux l = true ->
+  forall i j ci cj, (i < j)%nat -> nth_error l i = Some ci -> nth_error l j = Some cj ->
+                    ~ is_prefix ci cj /\ ~ is_prefix cj ci.
+Proof.
+  induction l as [|c r IH]; intros H i j ci cj L Hi Hj.
+  - destruct i; discriminate.
+  - cbn [pf_aux] in H. apply andb_true_iff in H. destruct H as [Hc Hr].
+    destruct j as [|j]; [lia|]. cbn [nth_error] in Hj.
+    destruct i as [|i].
+    + cbn in Hi. injection Hi as ->. rewrite forallb_forall in Hc.
+      specialize (Hc cj (nth_error_In _ _ Hj)). apply andb_true_iff in Hc. destruct Hc as [A B].
+      apply negb_true_iff in A, B. split; intros P; apply prefixb_spec in P; congruence.
+    + cbn [nth_error] in Hi. apply (IH Hr i j); auto. lia.
+Qed.
+
+Lemma pf_aux_sound l : pf_aux l = true -> prefix_free l.
+Proof.
+  intros H i j ci cj Hi Hj P.
+  destruct (Nat.lt_total i j) as [L|[E|L]]; [|exact E|].
+  - destruct (pf_aux_lt l H i j ci cj L Hi Hj) as [A _]. contradiction.
+  - destruct (pf_aux_lt l H j i cj ci L Hj Hi) as [_ A]. contradiction.
+Qed.
+
+Theorem check_prefix_free_sound cws : check_prefix_free cws = true -> prefix_free (table_codes cws).
+Proof. apply pf_aux_sound. Qed.
+
+(* --- completeness (Kraft equality) *)
+Lemma max_bits_ge cws c : In c cws -> snd c <= max_bits cws.
+Proof.
+  induction cws as [|d cws IH]; [intros []|]. cbn [max_bits fold_right].
+  intros [->|H]; [lia|]. specialize (IH H). unfold max_bits in IH. lia.
+Qed.
+
+Theorem check_complete_sound cws : check_complete cws = true -> complete (table_codes cws).
+Proof.
+  unfold check_complete. intros H. apply N.eqb_eq in H.
+  exists (N.to_nat (max_bits cws)). split.
+  - unfold table_codes. apply Forall_map. apply Forall_forall. intros c Hc.
+    rewrite cw_bits_length. pose proof (max_bits_ge cws c Hc). lia.
+  - rewrite N2Nat.id. exact H.
+Qed.
+
+(* --- alphabetic order *)
+Lemma bits_ltb_trans a b c : bits_ltb a b = true -> bits_ltb b c = true -> bits_ltb a c = true.
+Proof.
+  revert b c; induction a as [|x a IH]; intros b c H1 H2.
+  - destruct b; [discriminate|]. destruct c; [discriminate|reflexivity].
+  - destruct b as [|y b]; [discriminate|]. destruct c as [|z c]; [discriminate|].
+    cbn [bits_ltb] in *.
+    destruct x, y, z; cbn in *; try discriminate; try reflexivity; eauto.
+Qed.
+
+Lemma bits_ltb_irrefl a : bits_ltb a a = false.
+Proof. induction a as [|x a IH]; [reflexivity|]. cbn. rewrite Bool.eqb_reflx. exact IH. Qed.
+
+Lemma alpha_aux_cons c r :
+  alpha_aux (c :: r) = true -> Forall (fun d => bits_ltb c d = true) r /\ alpha_aux r = true.
+Proof.
+  revert c; induction r as [|d r IH]; intros c H; [split; [constructor|reflexivity]|].
+  change (alpha_aux (c :: d :: r)) with (bits_ltb c d && alpha_aux (d :: r)) in H.
+  apply andb_true_iff in H. destruct H as [Hcd Hr]. destruct (IH d Hr) as [Fd _].
+  split; [|exact Hr]. constructor; [exact Hcd|].
+  eapply Forall_impl; [|exact Fd]. cbn. intros e He. eapply bits_ltb_trans; eauto.
+Qed.
+
+Lemma alpha_aux_sound l : alpha_aux l = true -> alphabetic l.
+Proof.
+  induction l as [|c r IH]; intros H i j ci cj Hi Hj L.
+  - destruct i; discriminate.
+  - destruct (alpha_aux_cons c r H) as [Fc Hr].
+    destruct j as [|j]; [lia|]. cbn [nth_error] in Hj. destruct i as [|i].
+    + cbn in Hi. injection Hi as ->. rewrite Forall_forall in Fc. apply Fc. eapply nth_error_In; eauto.
+    + cbn [nth_error] in Hi. apply (IH Hr i j); auto. lia.
+Qed.
+
+Theorem check_alphabetic_sound cws : check_alphabetic cws = true -> alphabetic (table_codes cws).
+Proof. apply alpha_aux_sound. Qed.
+
+(* --- lengths *)
+Definition lengths_ok (cws : list cw) : Prop :=
+  Forall (fun c => 1 <= snd c <= 32 /\ fst c < 2 ^ snd c) cws.
+
+Theorem check_lengths_sound cws : check_lengths cws = true -> lengths_ok cws.
+Proof.
+  unfold check_lengths, lengths_ok. rewrite forallb_forall, Forall_forall.
+  intros H c Hc. specialize (H c Hc). lia.
+Qed.
+
+(* --- table decoding inverts encoding *)
+Lemma skipn_app_len {A} (a b : list A) : skipn (length a) (a ++ b) = b.
+Proof. induction a; cbn; auto. Qed.
+
+Lemma match_first_hit codes : forall k x c bs,
+  (forall i ci, (i < x)%nat -> nth_error codes i = Some ci -> prefixb ci bs = false) ->
+  nth_error codes x = Some c -> prefixb c bs = true ->
+  match_first codes k bs = Some (k + N.of_nat x, skipn (length c) bs).
+Proof.
+  induction codes as [|d codes IH]; intros k x c bs Hlt Hx Hp.
+  - destruct x; discriminate.
+  - cbn [match_first]. destruct x as [|x].
+    + cbn in Hx. injection Hx as ->. rewrite Hp. repeat f_equal. lia.
+    + rewrite (Hlt 0%nat d) by (try lia; reflexivity). cbn [nth_error] in Hx.
+      rewrite (IH (k + 1) x c bs); auto.
+      * do 2 f_equal. lia.
+      * intros i ci Hi Hci. apply (Hlt (S i) ci); [lia | exact Hci].
+Qed.
+
+Lemma match_first_code codes x c rest :
+  prefix_free codes -> nth_error codes x = Some c ->
+  match_first codes 0 (c ++ rest) = Some (N.of_nat x, rest).
+Proof.
+  intros PF Hx.
+  rewrite (match_first_hit codes 0 x c (c ++ rest)); auto.
+  - rewrite skipn_app_len. reflexivity.
+  - intros i ci Hi Hci. destruct (prefixb ci (c ++ rest)) eqn:E; [|reflexivity].
+    apply prefixb_spec in E.
+    destruct (prefixes_comparable ci c (c ++ rest) E (is_prefix_app c rest)) as [P|P].
+    + pose proof (PF i x ci c Hci Hx P). lia.
+    + pose proof (PF x i c ci Hx Hci P). lia.
+  - apply prefixb_spec, is_prefix_app.
+Qed.
+
+(* what a valid symbol string is for a table *)
+Definition sym_ok (cws : list cw) (x : N) : Prop := exists c, nthN cws x = Some c /\ 0 < snd c.
+
+Lemma nthN_table_codes cws x c : nthN cws x = Some c -> nth_error (table_codes cws) (N.to_nat x) = Some (cw_bits c).
+Proof. unfold nthN, table_codes. intros H. rewrite nth_error_map, H. reflexivity. Qed.
+
+Lemma encode_bits_cons cws x s :
+  encode_bits cws (x :: s) =
+  match option_map cw_bits (nthN cws x), encode_bits cws s with
+  | Some c, Some bs => Some (c ++ bs) | _, _ => None end.
+Proof. reflexivity. Qed.
+
+Lemma encode_bits_total cws s : Forall (sym_ok cws) s -> exists bs, encode_bits cws s = Some bs.
+Proof.
+  induction 1 as [|x s [c [Hc _]] _ [bs IH]]; [exists []; reflexivity|].
+  rewrite encode_bits_cons, Hc, IH. cbn. eauto.
+Qed.
+
+Lemma encode_bits_len cws s bs : Forall (sym_ok cws) s -> encode_bits cws s = Some bs -> (length s <= length bs)%nat.
+Proof.
+  intros F; revert bs; induction F as [|x s [c [Hc Hpos]] _ IH]; intros bs E.
+  - cbn. lia.
+  - rewrite encode_bits_cons, Hc in E. cbn [option_map] in E.
+    destruct (encode_bits cws s) as [bs'|]; [|discriminate]. injection E as <-.
+    specialize (IH _ eq_refl). rewrite app_length, cw_bits_length. cbn [length]. lia.
+Qed.
+
+Lemma decode_bits_aux_encode cws s : prefix_free (table_codes cws) -> Forall (sym_ok cws) s ->
+  forall bs fuel, encode_bits cws s = Some bs -> (length bs <= fuel)%nat ->
+  decode_bits_aux (table_codes cws) fuel bs = s.
+Proof.
+  intros PF F; induction F as [|x s [c [Hc Hpos]] _ IH]; intros bs fuel E L.
+  - cbn in E. injection E as <-. destruct fuel; reflexivity.
+  - rewrite encode_bits_cons, Hc in E. cbn [option_map] in E.
+    destruct (encode_bits cws s) as [bs'|]; [|discriminate]. injection E as <-.
+    assert (Hl : (1 <= length (cw_bits c))%nat) by (rewrite cw_bits_length; lia).
+    rewrite app_length in L.
+    destruct fuel as [|fuel]; [lia|]. cbn [decode_bits_aux].
+    destruct (cw_bits c ++ bs') as [|b0 t] eqn:Eb; [destruct (cw_bits c); [cbn in Hl; lia | discriminate]|].
+    rewrite <- Eb. rewrite (match_first_code _ (N.to_nat x) (cw_bits c) bs' PF (nthN_table_codes _ _ _ Hc)).
+    rewrite N2Nat.id. f_equal. apply IH; [reflexivity | lia].
+Qed.
+
+Theorem table_decode_encode cws s :
+  check_prefix_free cws = true -> Forall (sym_ok cws) s ->
+  exists bs, encode_bits cws s = Some bs /\ decode_bits cws bs = s.
+Proof.
+  intros PF F. destruct (encode_bits_total cws s F) as [bs E]. exists bs. split; [exact E|].
+  unfold decode_bits. eapply decode_bits_aux_encode; eauto. apply check_prefix_free_sound, PF.
+Qed.
+
+(* decoding a stream of NUL-terminated strings stops exactly after the requested number of NULs *)
+Inductive terminated : list N -> nat -> Prop :=
+| term_nil : terminated [] 0
+| term_zero s n : terminated s n -> terminated (0 :: s) (S n)
+| term_nz x s n : x <> 0 -> terminated s (S n) -> terminated (x :: s) (S n).
+
+Lemma terminated_app a n b m : terminated a n -> terminated b m -> terminated (a ++ b) (n + m).
+Proof.
+  induction 1 as [| s n Ha IH | x s n Hx Ha IH]; intros Hb; cbn [app Nat.add]; auto.
+  - constructor. auto.
+  - constructor; auto.
+Qed.
+
+Lemma terminated_string s : ~ In 0 s -> terminated (s ++ [0]) 1.
+Proof.
+  induction s as [|x s IH]; intros H; cbn [app].
+  - repeat constructor.
+  - apply term_nz; [intros ->; apply H; left; reflexivity | apply IH; intros H'; apply H; right; exact H'].
+Qed.
+
+Lemma decode_until0_encode cws s nul : prefix_free (table_codes cws) -> Forall (sym_ok cws) s ->
+  terminated s nul ->
+  forall bs rest fuel, encode_bits cws s = Some bs -> (length s <= fuel)%nat ->
+  decode_until0_aux (table_codes cws) fuel nul (bs ++ rest) = Some (s, rest).
+Proof.
+  intros PF F T; revert F; induction T as [| s n T IH | x s n Hx T IH]; intros F bs rest fuel E L.
+  - cbn in E. injection E as <-. destruct fuel; reflexivity.
+  - inversion F as [|? ? [c [Hc Hpos]] F']; subst.
+    rewrite encode_bits_cons, Hc in E. cbn [option_map] in E.
+    destruct (encode_bits cws s) as [bs'|]; [|discriminate]. injection E as <-.
+    cbn [length] in L. destruct fuel as [|fuel]; [lia|]. cbn [decode_until0_aux].
+    rewrite <- app_assoc.
+    rewrite (match_first_code _ (N.to_nat 0) (cw_bits c) (bs' ++ rest) PF (nthN_table_codes _ _ _ Hc)).
+    cbn [N.to_nat N.of_nat N.eqb]. rewrite (IH F' bs' rest fuel eq_refl) by lia. reflexivity.
+  - inversion F as [|? ? [c [Hc Hpos]] F']; subst.
+    rewrite encode_bits_cons, Hc in E. cbn [option_map] in E.
+    destruct (encode_bits cws s) as [bs'|]; [|discriminate]. injection E as <-.
+    cbn [length] in L. destruct fuel as [|fuel]; [lia|]. cbn [decode_until0_aux].
+    rewrite <- app_assoc.
+    rewrite (match_first_code _ (N.to_nat x) (cw_bits c) (bs' ++ rest) PF (nthN_table_codes _ _ _ Hc)).
+    rewrite N2Nat.id. destruct (N.eqb_spec x 0) as [->|_]; [contradiction|].
+    rewrite (IH F' bs' rest fuel eq_refl) by lia. reflexivity.
+Qed.
+
+(* ------------------------------------------------------------------ C. StatCoder bit packing *)
+
+Lemma bits_of_split a b v :
+  bits_of (a + b) v = bits_of a (v / 2 ^ N.of_nat b) ++ bits_of b v.
+Proof.
+  induction a as [|a IH]; [reflexivity|].
+  cbn [Nat.add bits_of app]. rewrite IH. f_equal.
+  rewrite N.div_pow2_bits. f_equal. lia.
+Qed.
+
+Lemma bits_of_mod n m v : (n <= m)%nat -> bits_of n (v mod 2 ^ N.of_nat m) = bits_of n v.
+Proof.
+  induction n as [|n IH]; intros H; [reflexivity|].
+  cbn [bits_of]. rewrite IH by lia. f_equal. apply N.mod_pow2_bits_low. lia.
+Qed.
+
+Lemma bits_of_zero n : bits_of n 0 = repeat false n.
+Proof. induction n as [|n IH]; [reflexivity|]. cbn [bits_of repeat]. rewrite IH, N.bits_0. reflexivity. Qed.
+
+(* hi * 2^b + lo, lo < 2^b : the bits of hi followed by the b bits of lo *)
+Lemma bits_of_join a b hi lo : lo < 2 ^ N.of_nat b ->
+  bits_of (a + b) (hi * 2 ^ N.of_nat b + lo) = bits_of a hi ++ bits_of b lo.
+Proof.
+  intros H. rewrite bits_of_split. f_equal.
+  - f_equal. rewrite N.div_add_l by (apply N.pow_nonzero; lia). rewrite N.div_small by assumption. lia.
+  - rewrite <- (bits_of_mod b b) by lia. f_equal.
+    rewrite N.add_comm, N.mod_add by (apply N.pow_nonzero; lia). apply N.mod_small. assumption.
+Qed.
+
+Lemma bits_of_modN n r v : (n <= N.to_nat r)%nat -> bits_of n (v mod 2 ^ r) = bits_of n v.
+Proof. intros H. rewrite <- (N2Nat.id r). apply bits_of_mod. exact H. Qed.
+
+Lemma bits_of_joinN a b hi lo : lo < 2 ^ b ->
+  bits_of (a + N.to_nat b) (hi * 2 ^ b + lo) = bits_of a hi ++ bits_of (N.to_nat b) lo.
+Proof.
+  intros H. pose proof (bits_of_join a (N.to_nat b) hi lo) as J. rewrite N2Nat.id in J. apply J. exact H.
+Qed.
+
+Lemma bits_of_splitN a b v :
+  bits_of (a + N.to_nat b) v = bits_of a (v / 2 ^ b) ++ bits_of (N.to_nat b) v.
+Proof. rewrite bits_of_split, N2Nat.id. reflexivity. Qed.
+
+Lemma lor_hi_lo hi lo k : lo < 2 ^ k -> N.lor (hi * 2 ^ k) lo = hi * 2 ^ k + lo.
+Proof.
+  intros H. apply lor_disjoint_add. rewrite N.land_comm, <- N.shiftl_mul_pow2.
+  apply land_low_shiftl. exact H.
+Qed.
+
+Lemma shl32_low x r : r <= 32 -> shl32 x (32 - r) = (x mod 2 ^ r) * 2 ^ (32 - r).
+Proof.
+  intros H. unfold shl32.
+  replace (2 ^ 32) with (2 ^ r * 2 ^ (32 - r)) by (rewrite <- N.pow_add_r; f_equal; lia).
+  rewrite N.mul_mod_distr_r; try (apply N.pow_nonzero; lia). reflexivity.
+Qed.
+
+(* a whole byte's worth: the top k = 8 - off bits of the r remaining bits *)
+Lemma code_byte_full cwd bits p off : bits <= 32 -> p <= bits -> off < 8 -> 8 - off <= bits - p ->
+  code_byte cwd bits p off = (cwd mod 2 ^ (bits - p)) / 2 ^ (bits - p - (8 - off)).
+Proof.
+  intros Hb Hp Ho Hk. unfold code_byte.
+  set (r := bits - p) in *. set (k := 8 - off) in *.
+  replace (32 - bits + p) with (32 - r) by lia. rewrite shl32_low by lia.
+  set (m := cwd mod 2 ^ r).
+  replace (24 + off) with (32 - k) by lia.
+  replace (2 ^ (32 - k)) with (2 ^ (r - k) * 2 ^ (32 - r)) by (rewrite <- N.pow_add_r; f_equal; lia).
+  rewrite N.div_mul_cancel_r; try (apply N.pow_nonzero; lia).
+  apply N.mod_small.
+  assert (m < 2 ^ r) by (apply N.mod_lt, N.pow_nonzero; lia).
+  assert (m / 2 ^ (r - k) < 2 ^ k).
+  { apply N.div_lt_upper_bound; [apply N.pow_nonzero; lia|]. rewrite <- N.pow_add_r.
+    replace (r - k + k) with r by lia. assumption. }
+  assert (2 ^ k <= 2 ^ 8) by (apply N.pow_le_mono_r; lia). change (2 ^ 8) with 256 in *. lia.
+Qed.
+
+(* the trailing bits: the r < 8 - off remaining bits, left-aligned below the [off] used ones *)
+Lemma code_byte_part cwd bits p off : bits <= 32 -> p < bits -> off < 8 -> bits - p < 8 - off ->
+  code_byte cwd bits p off = (cwd mod 2 ^ (bits - p)) * 2 ^ (8 - off - (bits - p)).
+Proof.
+  intros Hb Hp Ho Hk. unfold code_byte.
+  set (r := bits - p) in *. set (k := 8 - off) in *.
+  replace (32 - bits + p) with (32 - r) by lia. rewrite shl32_low by lia.
+  set (m := cwd mod 2 ^ r).
+  replace (24 + off) with (32 - k) by lia.
+  replace (2 ^ (32 - r)) with (2 ^ (k - r) * 2 ^ (32 - k)) by (rewrite <- N.pow_add_r; f_equal; lia).
+  rewrite N.mul_assoc, N.div_mul by (apply N.pow_nonzero; lia).
+  apply N.mod_small.
+  assert (m < 2 ^ r) by (apply N.mod_lt, N.pow_nonzero; lia).
+  assert (m * 2 ^ (k - r) < 2 ^ r * 2 ^ (k - r)) by (apply N.mul_lt_mono_pos_r; [apply pow2_pos | assumption]).
+  rewrite <- N.pow_add_r in H0. replace (r + (k - r)) with k in H0 by lia.
+  assert (2 ^ k <= 2 ^ 8) by (apply N.pow_le_mono_r; lia). change (2 ^ 8) with 256 in *. lia.
+Qed.
+
+(* representation invariant: [pre] is the bit string written so far *)
+Definition pinv (st : pstate) (pre : list bool) : Prop :=
+  let '(out, cur, off) := st in
+  exists hi, off < 8 /\ hi < 2 ^ off /\ cur = hi * 2 ^ (8 - off) /\
+             pre = bits_of_bytes out ++ bits_of (N.to_nat off) hi.
+
+Lemma pinv_init : pinv ([], 0, 0) [].
+Proof. exists 0. repeat split; cbn; lia. Qed.
+
+Lemma bits_of_bytes_app a b : bits_of_bytes (a ++ b) = bits_of_bytes a ++ bits_of_bytes b.
+Proof. unfold bits_of_bytes. apply flat_map_app. Qed.
+
+Lemma pack_loop_spec fuel : forall cwd bits p st pre,
+  bits <= 32 -> p <= bits -> pinv st pre -> (bits - p) + snd st < 8 * N.of_nat fuel ->
+  pinv (pack_loop fuel cwd bits p st) (pre ++ bits_of (N.to_nat (bits - p)) cwd).
+Proof.
+  induction fuel as [|fuel IH]; intros cwd bits p [[out cur] off] pre Hb Hp Hinv Hf.
+  - cbn [snd] in Hf. lia.
+  - cbn [snd] in Hf. destruct Hinv as [hi [Ho [Hhi [Hcur Hpre]]]].
+    cbn [pack_loop]. destruct (N.leb_spec (8 - off) (bits - p)) as [Hk|Hk].
+    + (* one more byte completed *)
+      rewrite code_byte_full by lia.
+      set (r := bits - p) in *. set (k := 8 - off) in *. set (m := cwd mod 2 ^ r).
+      assert (Hm : m / 2 ^ (r - k) < 2 ^ k).
+      { apply N.div_lt_upper_bound; [apply N.pow_nonzero; lia|]. rewrite <- N.pow_add_r.
+        replace (r - k + k) with r by lia. apply N.mod_lt, N.pow_nonzero; lia. }
+      rewrite Hcur, lor_hi_lo by exact Hm.
+      assert (E : bits_of (N.to_nat r) cwd =
+                  bits_of (N.to_nat k) (m / 2 ^ (r - k)) ++ bits_of (N.to_nat (r - k)) cwd).
+      { rewrite <- (bits_of_modN (N.to_nat r) r cwd) by lia. fold m.
+        replace (N.to_nat r) with (N.to_nat k + N.to_nat (r - k))%nat by lia.
+        rewrite bits_of_splitN. f_equal.
+        unfold m. apply bits_of_modN. lia. }
+      rewrite E, app_assoc.
+      replace (N.to_nat (r - k)) with (N.to_nat (bits - (p + k))) by lia.
+      apply IH; try lia.
+      * exists 0. repeat split; try (cbn; lia).
+        rewrite bits_of_bytes_app, Hpre, <- !app_assoc. f_equal.
+        change (bits_of (N.to_nat 0) 0) with (@nil bool).
+        unfold bits_of_bytes. cbn [flat_map]. rewrite !app_nil_r.
+        replace 8%nat with (N.to_nat off + N.to_nat k)%nat by lia.
+        symmetry. apply bits_of_joinN. exact Hm.
+      * cbn [snd]. lia.
+    + destruct (N.ltb_spec p bits) as [Hlt|Hge].
+      * (* trailing bits *)
+        rewrite code_byte_part by lia.
+        set (r := bits - p) in *. set (k := 8 - off) in *. set (m := cwd mod 2 ^ r).
+        assert (Hm : m < 2 ^ r) by (apply N.mod_lt, N.pow_nonzero; lia).
+        assert (Hm2 : m * 2 ^ (k - r) < 2 ^ k).
+        { replace k with (r + (k - r)) at 2 by lia. rewrite N.pow_add_r.
+          apply N.mul_lt_mono_pos_r; [apply pow2_pos | assumption]. }
+        rewrite Hcur, lor_hi_lo by exact Hm2.
+        exists (hi * 2 ^ r + m). split; [lia|]. split; [|split].
+        -- rewrite N.pow_add_r. nia.
+        -- replace (8 - (off + r)) with (k - r) by lia.
+           replace (2 ^ k) with (2 ^ r * 2 ^ (k - r)) by (rewrite <- N.pow_add_r; f_equal; lia). nia.
+        -- rewrite Hpre, <- app_assoc. f_equal.
+           replace (N.to_nat (off + r)) with (N.to_nat off + N.to_nat r)%nat by lia.
+           rewrite bits_of_joinN by exact Hm.
+           f_equal. unfold m. symmetry. apply bits_of_modN. lia.
+      * replace (bits - p) with 0 by lia. cbn [N.to_nat bits_of]. rewrite app_nil_r.
+        exists hi. auto.
+Qed.
+
+Lemma pack_symbol_spec c st pre : 1 <= snd c <= 32 -> pinv st pre ->
+  pinv (pack_symbol c st) (pre ++ cw_bits c).
+Proof.
+  intros Hc Hinv. unfold pack_symbol, cw_bits.
+  replace (snd c) with (snd c - 0) at 2 by lia.
+  apply pack_loop_spec; try lia; auto.
+  destruct st as [[out cur] off]. destruct Hinv as [hi [Ho _]]. cbn [snd]. lia.
+Qed.
+
+(* C1: the packed bits are exactly the concatenated codewords, from ANY starting state *)
+Theorem pack_bits cws s : lengths_ok cws -> forall st st' pre,
+  pinv st pre -> pack_symbols cws s st = Some st' ->
+  exists enc, encode_bits cws s = Some enc /\ pinv st' (pre ++ enc).
+Proof.
+  intros LO. induction s as [|x s IH]; intros st st' pre Hinv H.
+  - cbn in H. injection H as <-. exists []. rewrite app_nil_r. auto.
+  - cbn [pack_symbols] in H. destruct (nthN cws x) as [c|] eqn:Hc; [|discriminate].
+    assert (Hok : 1 <= snd c <= 32).
+    { unfold lengths_ok in LO. rewrite Forall_forall in LO. apply LO. eapply nth_error_In. exact Hc. }
+    destruct (IH _ _ _ (pack_symbol_spec c st pre Hok Hinv) H) as [enc [E Hinv']].
+    exists (cw_bits c ++ enc). rewrite encode_bits_cons, Hc, E. cbn [option_map].
+    rewrite app_assoc. auto.
+Qed.
+
+Lemma pack_symbols_total cws s st : Forall (fun x => x < lenN cws) s -> exists st', pack_symbols cws s st = Some st'.
+Proof.
+  intros F; revert st; induction F as [|x s Hx _ IH]; intros st; [eexists; reflexivity|].
+  cbn [pack_symbols]. destruct (nthN_lt_Some cws x Hx) as [c ->]. apply IH.
+Qed.
+
+Definition padding (st : pstate) : list bool :=
+  let '(_, _, off) := st in if 0 <? off then repeat false (N.to_nat (8 - off)) else [].
+
+Lemma final_bytes_bits st pre : pinv st pre -> bits_of_bytes (final_bytes st) = pre ++ padding st.
+Proof.
+  destruct st as [[out cur] off]. intros [hi [Ho [Hhi [Hcur Hpre]]]]. cbn [final_bytes padding].
+  destruct (N.ltb_spec 0 off) as [Hp|Hz].
+  - rewrite bits_of_bytes_app, Hpre, <- app_assoc. f_equal.
+    cbn [bits_of_bytes flat_map]. rewrite app_nil_r, Hcur.
+    replace 8%nat with (N.to_nat off + N.to_nat (8 - off))%nat by lia.
+    replace (hi * 2 ^ (8 - off)) with (hi * 2 ^ (8 - off) + 0) by lia.
+    rewrite bits_of_joinN by apply pow2_pos.
+    rewrite bits_of_zero. reflexivity.
+  - assert (off = 0) by lia. subst off. cbn in Hpre. rewrite !app_nil_r in *. symmetry. exact Hpre.
+Qed.
+
+Theorem pack_bits_bytes cws s st st' pre : lengths_ok cws -> pinv st pre -> pack_symbols cws s st = Some st' ->
+  exists enc, encode_bits cws s = Some enc /\
+              bits_of_bytes (final_bytes st') = pre ++ enc ++ padding st' /\
+              8 * lenN (fst (fst st')) + snd st' = N.of_nat (length pre + length enc).
+Proof.
+  intros LO Hinv H. destruct (pack_bits cws s LO st st' pre Hinv H) as [enc [E Hinv']].
+  exists enc. split; [exact E|]. split.
+  - rewrite (final_bytes_bits st' _ Hinv'), app_assoc. reflexivity.
+  - destruct st' as [[out cur] off]. destruct Hinv' as [hi [Ho [_ [_ Hpre]]]]. cbn [fst snd].
+    rewrite <- app_length, Hpre, app_length, bits_of_length.
+    assert (L : forall l, length (bits_of_bytes l) = (8 * length l)%nat).
+    { induction l as [|b l IHl]; [reflexivity|]. unfold bits_of_bytes in *. cbn [flat_map].
+      rewrite app_length, bits_of_length, IHl. cbn [length]. lia. }
+    rewrite L. unfold lenN. lia.
+Qed.
+
+(* encodeString: starts on a byte boundary *)
+Corollary pack_string_bits cws s bytes off : lengths_ok cws -> pack_string cws s = Some (bytes, off) ->
+  exists enc, encode_bits cws s = Some enc /\
+              bits_of_bytes bytes = enc ++ repeat false (N.to_nat ((8 - off) mod 8)) /\
+              off = N.of_nat (length enc) mod 8.
+Proof.
+  unfold pack_string. intros LO H.
+  destruct (pack_symbols cws s ([], 0, 0)) as [st'|] eqn:E; [|discriminate]. injection H as <- <-.
+  destruct (pack_bits_bytes cws s _ st' [] LO pinv_init E) as [enc [Ee [Hb Hl]]].
+  destruct (pack_bits cws s LO _ st' [] pinv_init E) as [enc' [Ee' Hinv]].
+  exists enc. split; [exact Ee|]. cbn [app] in Hb. rewrite Hb.
+  destruct st' as [[out cur] o]. destruct Hinv as [hi [Ho _]]. cbn [fst snd padding length Nat.add] in *.
+  split.
+  - f_equal. destruct (N.ltb_spec 0 o).
+    + rewrite N.mod_small by lia. reflexivity.
+    + replace o with 0 by lia. reflexivity.
+  - rewrite <- Hl. rewrite N.add_comm, N.mul_comm, N.mod_add by lia. symmetry. apply N.mod_small. exact Ho.
+Qed.
+
+Lemma sym_ok_of_lengths cws s : lengths_ok cws -> Forall (fun x => x < lenN cws) s -> Forall (sym_ok cws) s.
+Proof.
+  intros LO F. eapply Forall_impl; [|exact F]. cbn. intros x Hx.
+  destruct (nthN_lt_Some cws x Hx) as [c Hc]. exists c. split; [exact Hc|].
+  unfold lengths_ok in LO. rewrite Forall_forall in LO.
+  assert (1 <= snd c <= 32 /\ fst c < 2 ^ snd c) by (apply LO; eapply nth_error_In; exact Hc). lia.
+Qed.
+
+(* C2: round trip at the level of packed bytes, wherever the strings start (any state [st] reached by
+   earlier encodeSymbol calls: [pre] = everything written before) and end (zero padding / later data) *)
+Theorem C18_bit_roundtrip cws s nul st st' pre :
+  check_prefix_free cws = true -> check_lengths cws = true ->
+  Forall (fun x => x < lenN cws) s -> terminated s nul ->
+  pinv st pre -> pack_symbols cws s st = Some st' ->
+  decode_packed cws (final_bytes st') (N.of_nat (length pre)) nul = Some (s, padding st').
+Proof.
+  intros PF LO F T Hinv H. apply check_prefix_free_sound in PF. apply check_lengths_sound in LO.
+  destruct (pack_bits_bytes cws s st st' pre LO Hinv H) as [enc [E [Hb _]]].
+  unfold decode_packed. rewrite Hb, Nat2N.id, skipn_app_len.
+  pose proof (sym_ok_of_lengths cws s LO F) as SO.
+  apply decode_until0_encode; auto.
+  rewrite app_length. pose proof (encode_bits_len cws s enc SO E). lia.
+Qed.
+
+(* the form the dictionaries use on queries: encodeString(str, strLen + 1) of a NUL-free string *)
+Corollary C18_string_roundtrip cws s :
+  check_prefix_free cws = true -> check_lengths cws = true ->
+  Forall (fun x => x < lenN cws) (s ++ [0]) -> ~ In 0 s ->
+  exists bytes off pad, pack_string cws (s ++ [0]) = Some (bytes, off) /\
+                        decode_packed cws bytes 0 1 = Some (s ++ [0], pad).
+Proof.
+  intros PF LO F NZ. destruct (pack_symbols_total cws (s ++ [0]) ([], 0, 0) F) as [st' E].
+  exists (final_bytes st'), (snd st'), (padding st'). unfold pack_string. rewrite E. split; [reflexivity|].
+  apply (C18_bit_roundtrip cws (s ++ [0]) 1 ([], 0, 0) st' []); auto.
+  - apply terminated_string, NZ.
+  - apply pinv_init.
+Qed.
+
+(* ------------------------------------------------------------------ D. Hu-Tucker recombination *)
+
+Fixpoint seqN (start : N) (n : nat) : list N :=
+  match n with O => [] | S k => start :: seqN (start + 1) k end.
+
+Lemma seqN_length a n : length (seqN a n) = n.
+Proof. revert a; induction n; intros; cbn; auto. Qed.
+
+Lemma seqN_ge a n x : In x (seqN a n) -> a <= x.
+Proof. revert a; induction n as [|n IH]; intros a; [intros []|]. cbn. intros [<-|H]; [lia|]. apply IH in H. lia. Qed.
+
+Lemma seqN_sorted a n : StronglySorted N.lt (seqN a n).
+Proof.
+  revert a; induction n as [|n IH]; intros a; cbn; constructor; [apply IH|].
+  apply Forall_forall. intros x Hx. apply seqN_ge in Hx. lia.
+Qed.
+
+Lemma seqN_seq a n : map N.of_nat (seq a n) = seqN (N.of_nat a) n.
+Proof.
+  revert a; induction n as [|n IH]; intros a; [reflexivity|]. cbn [seq map seqN]. rewrite IH.
+  do 2 f_equal. lia.
+Qed.
+
+Definition stack_levels (st : rstack) : list (N * Z) :=
+  flat_map (fun p => leaf_levels (fst p) (snd p)) (rev st).
+
+Lemma stack_levels_cons t l st : stack_levels ((t, l) :: st) = stack_levels st ++ leaf_levels t l.
+Proof. unfold stack_levels. cbn [rev]. rewrite flat_map_app. cbn. rewrite app_nil_r. reflexivity. Qed.
+
+Lemma reduce_levels fuel : forall st, stack_levels (reduce fuel st) = stack_levels st.
+Proof.
+  induction fuel as [|fuel IH]; intros st; [reflexivity|].
+  destruct st as [|[t2 l2] [|[t1 l1] r]]; try reflexivity.
+  cbn [reduce]. destruct (Z.eqb_spec l2 l1) as [->|]; [|reflexivity].
+  rewrite IH, !stack_levels_cons. cbn [leaf_levels].
+  replace (l1 - 1 + 1)%Z with l1 by lia. rewrite app_assoc. reflexivity.
+Qed.
+
+Lemma recombine_loop_levels lv : forall cont st,
+  stack_levels (recombine_loop lv cont st) = stack_levels st ++ combine (seqN cont (length lv)) lv.
+Proof.
+  induction lv as [|l lv IH]; intros cont st; cbn [recombine_loop length seqN combine].
+  - rewrite app_nil_r. reflexivity.
+  - rewrite IH, reduce_levels, stack_levels_cons, <- app_assoc. reflexivity.
+Qed.
+
+(* D1: if the stack collapses to a single level-0 node, the tree's leaves, read left to right, are the
+   symbols 0..n-1 in order, each at the depth prescribed by the level vector *)
+Theorem recombination_sound levels t :
+  recombine levels = Some t -> leaf_levels t 0 = combine (seqN 0 (length levels)) levels.
+Proof.
+  unfold recombine, recombine_stack. destruct levels as [|l0 r]; [discriminate|].
+  pose proof (recombine_loop_levels r 1 [(Leaf 0, l0)]) as H.
+  destruct (recombine_loop r 1 [(Leaf 0, l0)]) as [|[t' l] rest]; [discriminate|].
+  destruct rest; destruct l; try discriminate. intros E. injection E as ->.
+  rewrite stack_levels_cons in H. cbn in H. cbn [length seqN combine]. exact H.
+Qed.
+
+Lemma leaf_levels_codes t : forall l,
+  leaf_levels t l = map (fun p => (fst p, (l + Z.of_nat (length (snd p)))%Z)) (codes_of_tree t).
+Proof.
+  induction t as [s|a IHa b IHb]; intros l.
+  - cbn. repeat f_equal. lia.
+  - cbn [leaf_levels codes_of_tree]. rewrite IHa, IHb, map_app, !map_map. cbn [fst snd length].
+    f_equal; apply map_ext; intros p; f_equal; lia.
+Qed.
+
+Lemma map_fst_combine {A B} (a : list A) (b : list B) : length a = length b -> map fst (combine a b) = a.
+Proof. revert b; induction a as [|x a IH]; intros [|y b] H; try discriminate; cbn; [reflexivity|]. f_equal. apply IH. cbn in H. lia. Qed.
+
+Lemma map_snd_combine {A B} (a : list A) (b : list B) : length a = length b -> map snd (combine a b) = b.
+Proof. revert b; induction a as [|x a IH]; intros [|y b] H; try discriminate; cbn; [reflexivity|]. f_equal. apply IH. cbn in H. lia. Qed.
+
+Corollary recombination_leaves levels t :
+  recombine levels = Some t -> leaves t = seqN 0 (length levels).
+Proof.
+  intros H. apply recombination_sound in H.
+  rewrite <- codes_leaves. apply (f_equal (map fst)) in H.
+  rewrite (map_fst_combine (seqN 0 (length levels)) levels (seqN_length _ _)) in H.
+  rewrite <- H, leaf_levels_codes, map_map. reflexivity.
+Qed.
+
+Corollary recombination_depths levels t :
+  recombine levels = Some t -> map (fun p => Z.of_nat (length (snd p))) (codes_of_tree t) = levels.
+Proof.
+  intros H. apply recombination_sound in H.
+  apply (f_equal (map snd)) in H.
+  rewrite (map_snd_combine (seqN 0 (length levels)) levels (seqN_length _ _)) in H.
+  rewrite <- H, leaf_levels_codes, map_map. reflexivity.
+Qed.
+
+(* hence, by A: whenever recombination succeeds the code is alphabetic (and prefix-free, complete) *)
+Corollary recombination_alphabetic levels t :
+  recombine levels = Some t ->
+  forall s1 c1 s2 c2, In (s1, c1) (codes_of_tree t) -> In (s2, c2) (codes_of_tree t) ->
+                      s1 < s2 -> bits_lt c1 c2.
+Proof.
+  intros H. apply ordered_tree_alphabetic. rewrite (recombination_leaves _ _ H). apply seqN_sorted.
+Qed.
+
+(* --- the codeword table read off the tree (encodeNode) *)
+Lemma code_val_acc_eq c : forall acc, code_val_acc acc c = acc * 2 ^ N.of_nat (length c) + code_val_acc 0 c.
+Proof.
+  induction c as [|b c IH]; intros acc; [cbn; lia|].
+  cbn [code_val_acc length]. rewrite IH, (IH (2 * 0 + _)).
+  replace (N.of_nat (S (length c))) with (N.succ (N.of_nat (length c))) by lia. rewrite N.pow_succ_r'. lia.
+Qed.
+
+Lemma code_val_lt c : code_val c < 2 ^ N.of_nat (length c).
+Proof.
+  unfold code_val. induction c as [|b c IH]; [cbn; lia|].
+  cbn [code_val_acc length]. rewrite code_val_acc_eq.
+  replace (N.of_nat (S (length c))) with (N.succ (N.of_nat (length c))) by lia. rewrite N.pow_succ_r'.
+  destruct b; lia.
+Qed.
+
+Lemma bits_of_code_val c : bits_of (length c) (code_val c) = c.
+Proof.
+  induction c as [|b c IH]; [reflexivity|].
+  unfold code_val. cbn [code_val_acc length]. rewrite code_val_acc_eq.
+  change (S (length c)) with (1 + length c)%nat.
+  rewrite bits_of_join by apply code_val_lt. fold (code_val c). rewrite IH.
+  destruct b; reflexivity.
+Qed.
+
+Lemma cw_bits_of_code c : cw_bits (code_val c, lenN c) = c.
+Proof. unfold cw_bits, lenN. cbn [fst snd]. rewrite Nat2N.id. apply bits_of_code_val. Qed.
+
+Lemma lookup_code_nodup cs s c : NoDup (map fst cs) -> In (s, c) cs -> lookup_code cs s = Some c.
+Proof.
+  induction cs as [|[s' c'] cs IH]; intros ND H; [destruct H|].
+  cbn [map fst] in ND. inversion ND as [|? ? Hn ND']; subst. cbn [lookup_code].
+  destruct H as [E|H].
+  - injection E as -> ->. rewrite N.eqb_refl. reflexivity.
+  - destruct (N.eqb_spec s' s) as [->|_]; [|auto].
+    exfalso. apply Hn. apply (in_map fst) in H. exact H.
+Qed.
+
+Lemma sorted_nodup l : StronglySorted N.lt l -> NoDup l.
+Proof.
+  induction 1 as [|x l _ IH Hf]; constructor; [|exact IH].
+  intros Hx. rewrite Forall_forall in Hf. specialize (Hf x Hx). lia.
+Qed.
+
+Lemma table_of_tree_codes t n : leaves t = seqN 0 n ->
+  table_codes (table_of_tree t n) = map snd (codes_of_tree t).
+Proof.
+  intros HL. unfold table_codes, table_of_tree.
+  change 0%nat with (N.to_nat 0) at 1. rewrite (seqN_seq (N.to_nat 0) n). cbn [N.to_nat N.of_nat].
+  rewrite <- HL, <- codes_leaves, !map_map.
+  apply map_ext_in. intros [s c] Hin. cbn [fst snd].
+  rewrite (lookup_code_nodup _ s c); [apply cw_bits_of_code | | exact Hin].
+  rewrite codes_leaves, HL. apply sorted_nodup, seqN_sorted.
+Qed.
+
+(* D2: the table a successful recombination yields passes every property of B *)
+Theorem recombination_table_ok levels t :
+  recombine levels = Some t ->
+  let cs := table_codes (table_of_tree t (length levels)) in
+  prefix_free cs /\ complete cs /\ alphabetic cs /\ map (fun c => Z.of_nat (length c)) cs = levels.
+Proof.
+  intros H cs. unfold cs. rewrite (table_of_tree_codes t _ (recombination_leaves _ _ H)).
+  split; [apply tree_codes_prefix_free_list|]. split; [apply tree_codes_complete|]. split.
+  - intros i j ci cj Hi Hj L.
+    apply nth_error_map_some in Hi. apply nth_error_map_some in Hj.
+    destruct Hi as [[si ci'] [Ei ->]], Hj as [[sj cj'] [Ej ->]]. cbn [snd].
+    apply (recombination_alphabetic _ _ H si ci' sj cj'); try (eapply nth_error_In; eassumption).
+    (* positions are the symbols *)
+    pose proof (recombination_leaves _ _ H) as HL. rewrite <- codes_leaves in HL.
+    assert (Hs : forall k s c, nth_error (codes_of_tree t) k = Some (s, c) -> s = N.of_nat k).
+    { intros k s c Hk. apply (map_nth_error fst) in Hk. rewrite HL in Hk. cbn [fst] in Hk.
+      clear - Hk. change (N.of_nat k) with (0 + N.of_nat k). revert Hk. generalize 0 as a.
+      revert k. induction (length levels) as [|n IH]; intros k a Hk; [destruct k; discriminate|].
+      destruct k as [|k]; cbn in Hk; [injection Hk as <-; lia|]. apply IH in Hk. lia. }
+    rewrite (Hs _ _ _ Ei), (Hs _ _ _ Ej). lia.
+  - rewrite map_map. apply (recombination_depths _ _ H).
+Qed.
+
+(* ------------------------------------------------------------------ E. one step of the chunked table *)
+
+Definition code_at (codes : list code) (s : N) : option code := nth_error codes (N.to_nat s).
+
+(* a populated entry is consistent with the code: its symbols' codewords, concatenated, are the first
+   [ebits] bits of the chunk index; a subtree entry is the part of the code tree below that k-bit prefix *)
+Definition entry_ok (codes : list code) (k : nat) (idx : N) (e : entry) : Prop :=
+  match e with
+  | ESyms syms eb => exists enc, encode_with (code_at codes) syms = Some enc /\
+                                 N.of_nat (length enc) = eb /\ is_prefix enc (bits_of k idx)
+  | ETree sub => forall s c, In (s, c) (codes_of_tree sub) -> code_at codes s = Some (bits_of k idx ++ c)
+  end.
+
+Definition entry_count (e : entry) : nat :=
+  match e with ESyms syms _ => length syms | ETree _ => 1%nat end.
+
+Lemma bit_steps_encode codes syms : prefix_free codes ->
+  forall enc rest, encode_with (code_at codes) syms = Some enc ->
+  bit_steps codes (length syms) (enc ++ rest) = Some (syms, rest).
+Proof.
+  intros PF. induction syms as [|s syms IH]; intros enc rest E.
+  - cbn in E. injection E as <-. reflexivity.
+  - cbn [encode_with] in E. destruct (code_at codes s) as [c|] eqn:Hc; [|discriminate].
+    destruct (encode_with (code_at codes) syms) as [enc'|]; [|discriminate]. injection E as <-.
+    cbn [length bit_steps]. rewrite <- app_assoc.
+    rewrite (match_first_code codes (N.to_nat s) c (enc' ++ rest) PF Hc), N2Nat.id.
+    rewrite (IH enc' rest eq_refl). reflexivity.
+Qed.
+
+Lemma tree_walk_inv t : forall bs s rest, tree_walk t bs = Some (s, rest) ->
+  exists c, In (s, c) (codes_of_tree t) /\ bs = c ++ rest.
+Proof.
+  induction t as [s'|l IHl r IHr]; intros bs s rest H.
+  - cbn in H. injection H as <- <-. exists []. split; [left; reflexivity | reflexivity].
+  - cbn [tree_walk] in H. destruct bs as [|b bs]; [discriminate|]. destruct b.
+    + destruct (IHr _ _ _ H) as [c [Hin ->]]. exists (true :: c). split; [|reflexivity].
+      apply in_codes_node. right. eauto.
+    + destruct (IHl _ _ _ H) as [c [Hin ->]]. exists (false :: c). split; [|reflexivity].
+      apply in_codes_node. left. eauto.
+Qed.
+
+Lemma chunk_index_bits k bs : (k <= length bs)%nat -> bits_of k (chunk_index k bs) = firstn k bs.
+Proof.
+  intros H. unfold chunk_index. rewrite firstn_app. replace (k - length bs)%nat with 0%nat by lia.
+  cbn [firstn]. rewrite app_nil_r.
+  rewrite <- (firstn_length_le bs H) at 1. apply bits_of_code_val.
+Qed.
+
+(* E1: whenever the consulted entry is consistent with the code, one table step is exactly
+   [entry_count] bit-level decoding steps (same symbols, same remaining bits) *)
+Theorem chunk_step_sound codes k tab bs e r :
+  prefix_free codes -> (k <= length bs)%nat ->
+  tab (chunk_index k bs) = Some e -> entry_ok codes k (chunk_index k bs) e ->
+  chunk_step k tab bs = Some r -> bit_steps codes (entry_count e) bs = Some r.
+Proof.
+  intros PF Hk Ht Hok. unfold chunk_step. rewrite Ht. unfold entry_ok in Hok.
+  rewrite (chunk_index_bits k bs Hk) in Hok. destruct e as [syms eb|sub]; cbn [entry_count].
+  - destruct Hok as [enc [E [Hl [r1 Hp]]]]. intros H. injection H as <-.
+    assert (Hbs : bs = enc ++ (r1 ++ skipn k bs)).
+    { rewrite app_assoc, <- Hp. symmetry. apply firstn_skipn. }
+    rewrite Hbs at 1. rewrite (bit_steps_encode codes syms PF enc _ E). do 2 f_equal.
+    rewrite <- Hl, Nat2N.id. rewrite Hbs at 2. rewrite skipn_app_len. reflexivity.
+  - destruct (tree_walk sub (skipn k bs)) as [[s rest]|] eqn:W; [|discriminate].
+    intros H. injection H as <-. destruct (tree_walk_inv _ _ _ _ W) as [c [Hin Hs]].
+    specialize (Hok s c Hin). cbn [bit_steps].
+    assert (Hbs : bs = (firstn k bs ++ c) ++ rest).
+    { rewrite <- app_assoc, <- Hs. symmetry. apply firstn_skipn. }
+    rewrite Hbs at 1. rewrite (match_first_code codes (N.to_nat s) _ rest PF Hok), N2Nat.id. reflexivity.
+Qed.
+
+(* a regular entry never fails *)
+Lemma chunk_step_syms k tab bs syms eb :
+  tab (chunk_index k bs) = Some (ESyms syms eb) -> chunk_step k tab bs = Some (syms, skipn (N.to_nat eb) bs).
+Proof. intros H. unfold chunk_step. rewrite H. reflexivity. Qed.
+
+(* ------------------------------------------------------------------ order of encoded strings *)
+(* What HTFC relies on when it compares Hu-Tucker encoded headers bytewise: for an alphabetic prefix-free
+   code, two symbol strings that first differ in a < b encode to bit strings in the same order. *)
+
+Lemma encode_with_app f p r encp encr :
+  encode_with f p = Some encp -> encode_with f r = Some encr -> encode_with f (p ++ r) = Some (encp ++ encr).
+Proof.
+  revert encp; induction p as [|x p IH]; intros encp Hp Hr.
+  - cbn in Hp. injection Hp as <-. exact Hr.
+  - cbn [encode_with app] in *. destruct (f x) as [c|]; [|discriminate].
+    destruct (encode_with f p) as [e|]; [|discriminate]. injection Hp as <-.
+    rewrite (IH e eq_refl Hr), app_assoc. reflexivity.
+Qed.
+
+Lemma encode_with_app_inv f p r enc :
+  encode_with f (p ++ r) = Some enc ->
+  exists encp encr, encode_with f p = Some encp /\ encode_with f r = Some encr /\ enc = encp ++ encr.
+Proof.
+  revert enc; induction p as [|x p IH]; intros enc H.
+  - exists [], enc. auto.
+  - cbn [encode_with app] in *. destruct (f x) as [c|]; [|discriminate].
+    destruct (encode_with f (p ++ r)) as [e|] eqn:E; [|discriminate]. injection H as <-.
+    destruct (IH e eq_refl) as [encp [encr [Hp [Hr ->]]]]. rewrite Hp.
+    exists (c ++ encp), encr. rewrite app_assoc. auto.
+Qed.
+
+Lemma bits_ltb_app_common p x y : bits_ltb (p ++ x) (p ++ y) = bits_ltb x y.
+Proof. induction p as [|b p IH]; [reflexivity|]. cbn [app]. rewrite bits_ltb_cons. exact IH. Qed.
+
+Lemma bits_ltb_app_decided c : forall d x y,
+  bits_ltb c d = true -> ~ is_prefix c d -> bits_ltb (c ++ x) (d ++ y) = true.
+Proof.
+  induction c as [|h c IH]; intros d x y L NP.
+  - exfalso. apply NP. exists d. reflexivity.
+  - destruct d as [|h' d]; [discriminate|]. cbn [app bits_ltb] in *.
+    destruct (Bool.eqb h h') eqn:E.
+    + apply Bool.eqb_prop in E. subst h'. apply IH; [exact L|].
+      intros P. apply NP. apply is_prefix_cons. auto.
+    + exact L.
+Qed.
+
+Theorem alphabetic_encode_monotone codes p a b u v encu encv :
+  prefix_free codes -> alphabetic codes -> a < b ->
+  encode_with (code_at codes) (p ++ a :: u) = Some encu ->
+  encode_with (code_at codes) (p ++ b :: v) = Some encv ->
+  bits_lt encu encv.
+Proof.
+  intros PF AL Hab Hu Hv.
+  destruct (encode_with_app_inv _ _ _ _ Hu) as [ep [eu [Hp [Hu' ->]]]].
+  destruct (encode_with_app_inv _ _ _ _ Hv) as [ep' [ev [Hp' [Hv' ->]]]].
+  rewrite Hp in Hp'. injection Hp' as <-.
+  cbn [encode_with] in Hu', Hv'.
+  destruct (code_at codes a) as [ca|] eqn:Ha; [|discriminate].
+  destruct (code_at codes b) as [cb|] eqn:Hb; [|discriminate].
+  destruct (encode_with (code_at codes) u) as [eu'|]; [|discriminate].
+  destruct (encode_with (code_at codes) v) as [ev'|]; [|discriminate].
+  injection Hu' as <-. injection Hv' as <-.
+  unfold bits_lt. rewrite bits_ltb_app_common. apply bits_ltb_app_decided.
+  - apply (AL (N.to_nat a) (N.to_nat b) ca cb Ha Hb). lia.
+  - intros P. pose proof (PF _ _ _ _ Ha Hb P). lia.
+Qed.
+
+(* ------------------------------------------------------------------ D'. the array-level recombination
+   (seq[], levels[], stack[] exactly as in HuTucker::recombination) computes the pair-stack model *)
+
+Definition alpha (s : rarr) : rstack :=
+  map (fun i => (nth (N.to_nat i) (ra_seq s) (Leaf 0), nth (N.to_nat i) (ra_lev s) 0%Z)) (ra_stack s).
+
+Definition rwf (s : rarr) : Prop :=
+  length (ra_seq s) = length (ra_lev s) /\ NoDup (ra_stack s) /\
+  Forall (fun i => (N.to_nat i < length (ra_seq s))%nat) (ra_stack s).
+
+Lemma updN_length {A} (l : list A) i v : length (updN l i v) = length l.
+Proof. revert i; induction l as [|x l IH]; intros [|i]; cbn; auto. Qed.
+
+Lemma nth_updN_same {A} (l : list A) i v d : (i < length l)%nat -> nth i (updN l i v) d = v.
+Proof. revert i; induction l as [|x l IH]; intros [|i] H; cbn in *; try lia; auto. apply IH. lia. Qed.
+
+Lemma nth_updN_other {A} (l : list A) i j v d : i <> j -> nth j (updN l i v) d = nth j l d.
+Proof.
+  revert i j; induction l as [|x l IH]; intros [|i] [|j] H; cbn; auto; try congruence.
+Qed.
+
+Lemma nthN_nth {A} (l : list A) i x d : nthN l i = Some x -> nth (N.to_nat i) l d = x.
+Proof. unfold nthN. intros H. apply nth_error_nth. exact H. Qed.
+
+Lemma reduce_arr_refines fuel : forall s, rwf s ->
+  exists s', reduce_arr fuel s = Some s' /\ alpha s' = reduce fuel (alpha s) /\ rwf s' /\
+             length (ra_seq s') = length (ra_seq s) /\ incl (ra_stack s') (ra_stack s) /\
+             (forall k, ~ In (N.of_nat k) (ra_stack s) ->
+                        nth k (ra_seq s') (Leaf 0) = nth k (ra_seq s) (Leaf 0) /\
+                        nth k (ra_lev s') 0%Z = nth k (ra_lev s) 0%Z).
+Proof.
+  induction fuel as [|fuel IH]; intros s W.
+  - exists s. split; [reflexivity|]. split; [reflexivity|]. split; [exact W|]. split; [reflexivity|]. split; [apply incl_refl|auto].
+  - destruct s as [sq lv stk]. destruct W as [WL [WN WF]]. cbn [ra_seq ra_lev ra_stack] in *.
+    destruct stk as [|j [|i r]].
+    + exists {| ra_seq := sq; ra_lev := lv; ra_stack := [] |}. split; [reflexivity|]. split; [reflexivity|]. split; [repeat split; assumption|]. split; [reflexivity|]. split; [apply incl_refl|auto].
+    + exists {| ra_seq := sq; ra_lev := lv; ra_stack := [j] |}. split; [reflexivity|]. split; [reflexivity|]. split; [repeat split; assumption|]. split; [reflexivity|]. split; [apply incl_refl|auto].
+    + inversion WF as [|? ? Hj WF']; subst. inversion WF' as [|? ? Hi WF'']; subst.
+      inversion WN as [|? ? Nj WN']; subst. inversion WN' as [|? ? Ni WN'']; subst.
+      assert (Hjl : j < lenN lv) by (unfold lenN; lia). assert (Hil : i < lenN lv) by (unfold lenN; lia).
+      assert (Hjs : j < lenN sq) by (unfold lenN; lia). assert (His : i < lenN sq) by (unfold lenN; lia).
+      destruct (nthN_lt_Some lv j Hjl) as [lj Elj]. destruct (nthN_lt_Some lv i Hil) as [li Eli].
+      destruct (nthN_lt_Some sq i His) as [ti Eti]. destruct (nthN_lt_Some sq j Hjs) as [tj Etj].
+      cbn [reduce_arr ra_stack ra_lev ra_seq]. rewrite Elj, Eli, Eti, Etj.
+      unfold alpha at 2. cbn [ra_stack ra_seq ra_lev map reduce].
+      rewrite (nthN_nth lv j lj 0%Z Elj), (nthN_nth lv i li 0%Z Eli),
+              (nthN_nth sq i ti (Leaf 0) Eti), (nthN_nth sq j tj (Leaf 0) Etj).
+      destruct (Z.eqb lj li).
+      * set (s1 := {| ra_seq := updN sq (N.to_nat i) (Node ti tj);
+                      ra_lev := updN lv (N.to_nat i) (li - 1)%Z; ra_stack := i :: r |}).
+        assert (W1 : rwf s1).
+        { unfold rwf, s1. cbn [ra_seq ra_lev ra_stack]. rewrite !updN_length. repeat split; auto. }
+        destruct (IH s1 W1) as [s' [R [A [W' [L' [I' F']]]]]].
+        exists s'. split; [exact R|]. split; [|split; [exact W'|split; [|split]]].
+        -- rewrite A. f_equal. unfold alpha, s1. cbn [ra_seq ra_lev ra_stack map].
+           rewrite !nth_updN_same by lia. f_equal.
+           apply map_ext_in. intros k Hk.
+           assert (N.to_nat i <> N.to_nat k) by (intros E; apply Ni; apply N2Nat.inj in E; subst; exact Hk).
+           rewrite !nth_updN_other by assumption. reflexivity.
+        -- rewrite L'. unfold s1. cbn [ra_seq]. apply updN_length.
+        -- intros x Hx. apply I' in Hx. unfold s1 in Hx. cbn [ra_stack] in Hx. right. exact Hx.
+        -- intros k Hk. destruct (F' k) as [Fs Fl].
+           { unfold s1. cbn [ra_stack]. intros H. apply Hk. right. exact H. }
+           rewrite Fs, Fl. unfold s1. cbn [ra_seq ra_lev].
+           assert (N.to_nat i <> k) by (intros E; apply Hk; right; left; lia).
+           rewrite !nth_updN_other by assumption. auto.
+      * exists {| ra_seq := sq; ra_lev := lv; ra_stack := j :: i :: r |}.
+        split; [reflexivity|]. split.
+        { unfold alpha. cbn [ra_stack ra_seq ra_lev map].
+          rewrite (nthN_nth lv j lj 0%Z Elj), (nthN_nth lv i li 0%Z Eli),
+                  (nthN_nth sq i ti (Leaf 0) Eti), (nthN_nth sq j tj (Leaf 0) Etj). reflexivity. }
+        split; [repeat split; assumption|].
+        split; [reflexivity|]. split; [apply incl_refl|auto].
+Qed.
+
+Lemma skipn_nth_cons {A} (l : list A) n d : (n < length l)%nat -> skipn n l = nth n l d :: skipn (S n) l.
+Proof.
+  revert n; induction l as [|x l IH]; intros n H; [cbn in H; lia|].
+  destruct n as [|n]; [reflexivity|]. cbn [skipn nth]. apply IH. cbn in H. lia.
+Qed.
+
+Lemma recombine_arr_loop_refines levels : forall todo cont s,
+  rwf s -> length (ra_seq s) = length levels ->
+  (N.to_nat cont + todo = length levels)%nat ->
+  Forall (fun i => i < cont) (ra_stack s) ->
+  (forall k, (N.to_nat cont <= k < length levels)%nat ->
+             nth k (ra_seq s) (Leaf 0) = Leaf (N.of_nat k) /\ nth k (ra_lev s) 0%Z = nth k levels 0%Z) ->
+  exists s', recombine_arr_loop todo cont s = Some s' /\ rwf s' /\
+             alpha s' = recombine_loop (skipn (N.to_nat cont) levels) cont (alpha s).
+Proof.
+  induction todo as [|todo IH]; intros cont s W L T B U.
+  - exists s. split; [reflexivity|]. split; [exact W|].
+    replace (N.to_nat cont) with (length levels) by lia. rewrite skipn_all. reflexivity.
+  - cbn [recombine_arr_loop].
+    set (sp := {| ra_seq := ra_seq s; ra_lev := ra_lev s; ra_stack := cont :: ra_stack s |}).
+    destruct W as [WL [WN WF]].
+    assert (Wp : rwf sp).
+    { unfold rwf, sp. cbn [ra_seq ra_lev ra_stack]. split; [exact WL|]. split.
+      - constructor; [|exact WN]. intros H. rewrite Forall_forall in B. specialize (B _ H). lia.
+      - constructor; [lia | exact WF]. }
+    destruct (reduce_arr_refines (S (length (ra_stack s))) sp Wp) as [s1 [R [A [W1 [L1 [I1 F1]]]]]].
+    rewrite R.
+    destruct (IH (cont + 1) s1) as [s' [R' [W' A']]]; auto.
+    + rewrite L1. exact L.
+    + lia.
+    + apply Forall_forall. intros x Hx. apply I1 in Hx. unfold sp in Hx. cbn [ra_stack] in Hx.
+      destruct Hx as [<-|Hx]; [lia|]. rewrite Forall_forall in B. specialize (B _ Hx). lia.
+    + intros k Hk. destruct (F1 k) as [Fs Fl].
+      { unfold sp. cbn [ra_stack]. intros [E|H]; [lia|]. rewrite Forall_forall in B. specialize (B _ H). lia. }
+      rewrite Fs, Fl. unfold sp. cbn [ra_seq ra_lev]. apply U. lia.
+    + exists s'. split; [exact R'|]. split; [exact W'|]. rewrite A'.
+      rewrite (skipn_nth_cons levels (N.to_nat cont) 0%Z) by lia. cbn [recombine_loop].
+      replace (N.to_nat (cont + 1)) with (S (N.to_nat cont)) by lia. f_equal.
+      assert (Ap : alpha sp = (Leaf cont, nth (N.to_nat cont) levels 0%Z) :: alpha s).
+      { unfold alpha, sp. cbn [ra_stack ra_seq ra_lev map].
+        destruct (U (N.to_nat cont)) as [Us Ul]; [lia|]. rewrite Us, Ul, N2Nat.id. reflexivity. }
+      rewrite A, Ap. unfold alpha. rewrite map_length. reflexivity.
+Qed.
+
+Lemma nth_leaf_seq n : forall a k d, (k < n)%nat -> nth k (leaf_seq a n) d = Leaf (a + N.of_nat k).
+Proof.
+  induction n as [|n IH]; intros a k d H; [lia|]. destruct k as [|k]; cbn [leaf_seq nth].
+  - f_equal. lia.
+  - rewrite IH by lia. f_equal. lia.
+Qed.
+
+Lemma leaf_seq_length a n : length (leaf_seq a n) = n.
+Proof. revert a; induction n; intros; cbn; auto. Qed.
+
+(* D3: the array algorithm never reads out of bounds and computes exactly the stack of the pair model *)
+Theorem recombine_arr_refines levels : levels <> [] ->
+  exists s, recombine_arr levels = Some s /\ rwf s /\ alpha s = recombine_stack levels.
+Proof.
+  destruct levels as [|l0 r]; [congruence|]. intros _. unfold recombine_arr, recombine_stack.
+  set (levels := l0 :: r).
+  set (s0 := {| ra_seq := leaf_seq 0 (length levels); ra_lev := levels; ra_stack := [0] |}).
+  destruct (recombine_arr_loop_refines levels (length r) 1 s0) as [s' [R [W A]]].
+  - unfold rwf, s0. cbn [ra_seq ra_lev ra_stack]. rewrite leaf_seq_length. split; [reflexivity|].
+    split; [repeat constructor; intros []|]. repeat constructor. cbn. lia.
+  - unfold s0. cbn [ra_seq]. apply leaf_seq_length.
+  - unfold levels. cbn [length]. lia.
+  - repeat constructor.
+  - intros k Hk. unfold s0. cbn [ra_seq ra_lev]. rewrite nth_leaf_seq by lia. split; [f_equal; lia | reflexivity].
+  - exists s'. split; [exact R|]. split; [exact W|]. rewrite A. reflexivity.
+Qed.
+
+Corollary recombine_arr_root_eq levels : levels <> [] -> recombine_arr_root levels = recombine_root levels.
+Proof.
+  intros H. destruct (recombine_arr_refines levels H) as [s [R [W A]]].
+  unfold recombine_arr_root, recombine_root. rewrite R, <- A. unfold alpha.
+  destruct W as [_ [_ WF]]. destruct (ra_stack s) as [|top rest]; [reflexivity|]. cbn [map].
+  inversion WF as [|? ? Ht _]; subst. unfold nthN.
+  apply nth_error_nth' with (d := Leaf 0) in Ht. exact Ht.
 Qed.
